@@ -559,6 +559,11 @@ def knot_insertion(degree, knotvector, ctrlpts, u, **kwargs):
     """
     # Get keyword arguments
     num = kwargs.get('num', 1)  # number of knot insertions
+    if 's' not in kwargs or 'span' not in kwargs:
+        # The multiplicity is counted within a tolerance and the knot span is found by exact comparison: a parameter which
+        # coincides with an existing knot within that tolerance is taken for the knot, otherwise the two do not fit together
+        if find_multiplicity(u, knotvector) > 0:
+            u = min(knotvector, key=lambda knot: abs(knot - u))
     s = kwargs.get('s', find_multiplicity(u, knotvector))  # multiplicity
     k = kwargs.get('span', find_span_linear(degree, knotvector, len(ctrlpts), u))  # knot span
 
